@@ -6,6 +6,10 @@ ROOT = os.path.dirname(os.path.dirname(os.path.abspath(__file__)))
 TECH = 'Coq 8.16 theorems about hand-written Gallina models of the C routines + correspondence check (extracted OCaml model vs libmpir.a built from /repo) + regenerated tables where named'
 
 CHECKS = {
+ 'C01': dict(
+   text='Coq theorems (Properties_C01.v): limb-level models of mpn_mul_1/addmul_1/submul_1 and of mpn_mul_basecase return exactly u*v (+/- r) with every result limb and the returned high limb, for every length and content; the Karatsuba recombination with its |xh-xl||yh-yl| sign rule equals x*y for every split size, threshold and recursion depth; the mpz_mul/mul_ui/mul_si/addmul/submul(_ui) models return the exact signed value and a well-formed object; the parameter selection of mpn_mul_fft_main (regenerated FFT_TAB) yields for ALL operand sizes and all well-formed tables a (depth,w) for which no convolution coefficient wraps. Correspondence: every multiplication entry point vs the model at all size pairs <= 24, at every crossover of the regenerated threshold table +-1, strips, all-ones data, same-pointer operands; (depth,w) observed by link-time wrapping compared with the model.',
+   note='Not proved, tied by execution only: limb-level Toom-3/4/8h evaluation/interpolation, the FFT transforms, assembly sqr_basecase/mullow/mulmid. Above 96 limbs (quick) products are compared through residues modulo four moduli (theorem C01_mul_residues). Trusted: Coq kernel, extraction, drivers, generators, translator/gen_tables.py.',
+   design='6/C01'),
  'C03': dict(
    text='Coq theorems (Properties_C03.v): for every length and limb content the models of mpn_add_n/sub_n/add_1/sub_1/add/sub/neg_n/com_n/lshift/rshift/cmp/zero_p/zero equal the exact integer function incl. returned carry/borrow/shifted-out bits; the C loops over a shared memory give the same result for every permitted overlap; the mpz_add/sub/add_ui/sub_ui/ui_sub/neg/abs/mul_2exp/set/swap models return the exact signed value and a well-formed object. The models are tied to /repo by running the extracted model and the freshly built library on the same generated cases.',
    note='Trusted: Coq kernel, extraction (ExtrOcamlBasic), OCaml/C drivers, generators. Modelled, not verified: the C source itself (tied by execution); assembly kernels add_err*/sub_err* are outside (C14).',
